@@ -295,11 +295,20 @@ func (g *G) PolygonDesc(maxV int) ShapeDesc {
 		return ShapeDesc{Kind: KPolygon, Special: sp}
 	}
 	nshell := 1 + int(t.Uint(3))
+	many := false
+	if t.Chance(120) && maxV >= 60 {
+		// many small shells: more than 12 loops switches Polygon to its cumulative-edge lookup tables
+		nshell = 13 + int(t.Uint(8))
+		many = true
+	}
 	base := g.Point()
 	bx, by := frame(base)
 	var loops [][]s2.Point
 	var depth []int
 	budget := maxV
+	if many {
+		budget = 4 * nshell * 3
+	}
 	for sIdx := 0; sIdx < nshell && budget >= 3; sIdx++ {
 		// shells on three mutually orthogonal axes, each within 25 degrees: disjoint.
 		c := base
@@ -309,11 +318,22 @@ func (g *G) PolygonDesc(maxV int) ShapeDesc {
 			c = by
 		}
 		rmax := math.Tan((1 + 24*t.Float()) * math.Pi / 180)
+		if many {
+			// a ring of small shells 25 degrees out from base, 360/nshell degrees apart
+			c = planar(base, math.Tan(25*math.Pi/180), 2*math.Pi*float64(sIdx)/float64(nshell))
+			rmax = math.Tan((0.2 + 1.5*t.Float()) * math.Pi / 180)
+		}
 		n := g.vertexCount(budget)
+		if many {
+			n = 3 + int(t.Uint(4))
+		}
 		shell := g.starLoop(c, n, rmax*0.6, rmax, t.Chance(500))
 		loops = append(loops, shell)
 		depth = append(depth, 0)
 		budget -= n
+		if many {
+			continue
+		}
 		inner := rmax * 0.6 * math.Cos(math.Pi/float64(n)) * 0.9
 		if budget >= 3 && t.Chance(450) {
 			nh := g.vertexCount(budget)
@@ -589,7 +609,11 @@ func (g *G) CodecPolygonDesc() ShapeDesc {
 			c = planar(base, math.Tan(20*math.Pi/180), 2*math.Pi*float64(sIdx)/float64(nshell))
 			rmax = math.Tan((0.01 + 1.5*t.Float()) * math.Pi / 180)
 		}
-		n := g.vertexCount(g.capV(90))
+		nmax := 90
+		if nshell == 1 && t.Chance(150) {
+			nmax = 300 // one big shell: loops of hundreds of vertices in both formats
+		}
+		n := g.vertexCount(g.capV(nmax))
 		shell := snap(g.starLoop(c, n, rmax*0.6, rmax, t.Chance(500)))
 		loops = append(loops, shell)
 		depth = append(depth, 0)
